@@ -141,7 +141,36 @@ func blockClass(b *nom.AccountBlock) string {
 	return fmt.Sprintf("type%d", b.BlockType)
 }
 
-// histories: the bounded family of real producer histories.
+const nScripted = 4
+
+// allHistories = the 4 scripted histories followed by the enumerated family (indices are stable across tiers: replay
+// files refer to them).
+func allHistories() [][]ops.Op {
+	return append(histories(""), enumerated()...)
+}
+
+// enumerated: every sequence of two operations from a 7-letter alphabet, after one momentum (so that "Told13" has an
+// older momentum to acknowledge) and followed by three momentums (everything gets confirmed, refunds included).
+func enumerated() [][]ops.Op {
+	alpha := []ops.Op{
+		{K: "T", A: 0, B: 1, V: 5},
+		{K: "Told13", A: 1, B: 2, V: 3},
+		{K: "R", A: 1},
+		{K: "Call", S: "stake", A: 2, V: 10},
+		{K: "Call", S: "refund", A: 5},
+		{K: "Call", S: "delegate", A: 1, B: 1},
+		M,
+	}
+	var hs [][]ops.Op
+	for _, a := range alpha {
+		for _, b := range alpha {
+			hs = append(hs, []ops.Op{M, a, b, M, M, M})
+		}
+	}
+	return hs
+}
+
+// histories: the scripted histories.
 func histories(tier string) [][]ops.Op {
 	var hs [][]ops.Op
 	// H0: transfer + receive, stake call with auto-receive, refund (sentinel register without deposit) whose contract
